@@ -237,12 +237,39 @@ impl MemReader {
             offset += std::mem::size_of::<usize>();
         }
 
-        // I don't think there would ever be a case where we would not read on word boundaries, but just in case...
+        // PTRACE_PEEKDATA always transfers a whole word, so the remaining bytes must be taken from
+        // words that do not extend past the requested range into memory that may be unmapped.
+        const WORD: usize = std::mem::size_of::<usize>();
         let last = chunks.into_remainder();
         if !last.is_empty() {
-            let word = nix::sys::ptrace::read(pid, (src + offset) as *mut std::ffi::c_void)
-                .map_err(|err| (err, offset))?;
-            last.copy_from_slice(&word.to_ne_bytes()[..last.len()]);
+            if offset >= WORD {
+                // The word that ends exactly where the requested range ends
+                let start = src + offset + last.len() - WORD;
+                let word = nix::sys::ptrace::read(pid, start as *mut std::ffi::c_void)
+                    .map_err(|err| (err, offset))?;
+                last.copy_from_slice(&word.to_ne_bytes()[WORD - last.len()..]);
+            } else {
+                // Fewer bytes than a word in total: use the aligned words covering them (an
+                // aligned word never straddles a page)
+                let begin = src + offset;
+                let mut cached: Option<(usize, [u8; WORD])> = None;
+                for (i, byte) in last.iter_mut().enumerate() {
+                    let addr = begin + i;
+                    let aligned = addr & !(WORD - 1);
+                    let bytes = match cached {
+                        Some((a, bytes)) if a == aligned => bytes,
+                        _ => {
+                            let word =
+                                nix::sys::ptrace::read(pid, aligned as *mut std::ffi::c_void)
+                                    .map_err(|err| (err, offset))?;
+                            let bytes = word.to_ne_bytes();
+                            cached = Some((aligned, bytes));
+                            bytes
+                        }
+                    };
+                    *byte = bytes[addr - aligned];
+                }
+            }
         }
 
         Ok(dst.len())
